@@ -98,8 +98,8 @@ class C10(Property):
         cases = []
         k = 0
         while len(cases) < n:
-            if rng.random() < 0.05:
-                cases.extend(self.conflict_family(rng, k) if rng.random() < 0.5 else self.group_family(rng, k))
+            if rng.random() < 0.12:
+                cases.extend(self.conflict_family(rng, k) if rng.random() < 0.6 else self.group_family(rng, k))
                 k += 1
                 continue
             opts, names = gen.gen_options(rng, features=rng.choice([("alt", "cmd", "pos"), ("alt", "cmd", "pos", "adj"), ("pos",)]),
